@@ -7,6 +7,8 @@ peer.  The two sides decide with the same predicate, and that is what is proved 
 
 * `kept_records_are_admissible`: every record `discovered` hands to a lookup is contactable in this
   node's IP mode, passes the table filter, and is neither the local node nor the responder;
+* `discovered_adds_admissible_candidates`: so is everything `discovered` adds to the lookup's untrusted
+  records (the records `send_rpc_query` later finds);
 * `contactable_candidate_is_asked`: `send_rpc_query` for a candidate whose record is found and is
   contactable in this node's IP mode emits exactly one FINDNODE request to it - the "non contactable"
   branch is dead for every record `discovered` kept.
@@ -68,6 +70,52 @@ theorem kept_records_are_admissible (source : Nat) :
       · rw [if_neg hkeep] at hk
         exact Or.inl hk
     · exact Or.inr hadm
+
+/-- The `untrusted_enrs` update of `discovered` adds nothing but kept records. -/
+theorem foldl_untrusted_mem (kept : List Rec) :
+    ∀ (u : List Rec), ∀ r ∈ kept.foldl
+        (fun (u : List Rec) r => if u.any (fun e => e.id == r.id) then u else u ++ [r]) u,
+      r ∈ u ∨ r ∈ kept := by
+  induction kept with
+  | nil => intro u r hr; exact Or.inl hr
+  | cons x xs ih =>
+    intro u r hr
+    rw [List.foldl_cons] at hr
+    rcases ih _ r hr with h | h
+    · split at h
+      · exact Or.inl h
+      · rcases List.mem_append.mp h with h | h
+        · exact Or.inl h
+        · exact Or.inr (by simp at h; simp [h])
+    · exact Or.inr (List.mem_cons_of_mem _ h)
+
+/-- Whatever `discovered` adds to the untrusted records of the lookup a request belonged to - the records
+the lookup will later be asked to contact - is contactable in this node's IP mode, passes the table filter,
+and is neither the local node nor the responder. -/
+theorem discovered_adds_admissible_candidates (s : Svc) (source : Nat) (recs : List Rec) (query : Option Nat)
+    (q' : Query) (hq' : (s.discovered source recs query).1.query = some q') :
+    ∀ r ∈ q'.untrusted,
+      (∃ q, (discoveredLoop s source recs [] []).1.query = some q ∧ r ∈ q.untrusted) ∨
+      (contactable s.cfg.ipMode r = true ∧ r.passesFilter = true ∧ r.id ≠ s.localRec.id ∧ r.id ≠ source) := by
+  intro r hr
+  have hk := kept_records_are_admissible source recs s [] []
+  unfold discovered at hq'
+  generalize discoveredLoop s source recs [] [] = x at hq' hk ⊢
+  obtain ⟨s1, kept, outs⟩ := x
+  simp only [] at hq' hk ⊢
+  split at hq'
+  · rename_i qid q hqs
+    split at hq'
+    · simp only [Option.some.injEq] at hq'
+      subst hq'
+      simp only [] at hr
+      rcases foldl_untrusted_mem kept q.untrusted r hr with h | h
+      · exact Or.inl ⟨q, by assumption, h⟩
+      · rcases hk r h with h0 | h0
+        · simp at h0
+        · exact Or.inr h0
+    · exact Or.inl ⟨q', hq', hr⟩
+  · exact Or.inl ⟨q', hq', hr⟩
 
 /-- `send_rpc_query` for a candidate whose record is found (routing table or the lookup's untrusted
 records) and is contactable in this node's IP mode sends it exactly one FINDNODE request: the lookup is
